@@ -53,6 +53,21 @@ func probe(args []string) error {
 			n.peer.push(p2p.TxsMsg, enc(types.Transactions(wd.txs)))
 			n.fence()
 			time.Sleep(100 * time.Millisecond)
+		case a[0] == 'g': // g1.2: deliver block 1, hold it inside InsertBlock, deliver confirm (1, deputy 2), release
+			p := strings.Split(a[1:], ".")
+			h, _ := strconv.Atoi(p[0])
+			d, _ := strconv.Atoi(p[1])
+			n.cw.gate = make(chan struct{})
+			from := n.r.mark()
+			n.peer.push(p2p.BlocksMsg, enc(types.Blocks{node.Copy(wd.blocks[h], nil)}))
+			n.r.wait("insert begin", func(evs []ev) bool {
+				return count(evs, from, func(e ev) bool { return e.kind == "InsertBlock.begin" }) >= 1
+			})
+			n.peer.push(p2p.ConfirmMsg, enc(wd.confirm(h, d)))
+			n.fence()
+			g := n.cw.gate
+			n.cw.gate = nil
+			close(g)
 		case a == "tick":
 			time.Sleep(600 * time.Millisecond)
 		}
